@@ -5,6 +5,7 @@ import GlyProofs.Mono.NumberingF
 import GlyProofs.Mono.LinkAtom
 import GlyProofs.Front.WalkDen
 import GlyProofs.Poly.PlanRefines
+import GlyProofs.Poly.PlanSlots
 /-
   C01 — Glycosidic assembly yields exactly the molecule the linkages describe. (Property theorems only.)
 -/
@@ -189,6 +190,24 @@ example :
     let w : WalkCfg := ⟨0, fun _ => true, fun _ => false⟩
     specWhole (markTrav (fun _ => true) 4) w F (rootLabel ['n']) () =
       some [.chir 0 'n', .mark 0 4 0, .chir 1 'b', .mark 1 3 0, .chir 2 'a', .mark 1 6 1, .chir 3 'a'] := by
+  decide +kernel
+
+open Gly.Plan in
+/-- **No two children of one residue share a marker pair**: in the plan the children of every residue `x` get the slots 0, 1, 2, …
+    in written sibling order – the hypothesis "the children's markers are pairwise different" of `C01_tree_refines_spec` is what
+    `Merger.mark` produces (with `C01_marker_table`: different slots are different marker atoms). -/
+theorem C01_sibling_slots_distinct {α : Type} (down : Nat → α → α) (w : WalkCfg) (F : GF) (a : α) (x : Nat) :
+    (((linkages down w F 0 1 0 a).filter (fun l => l.1 == x)).map Lk.slot).Nodup ∧
+    ((linkages down w F 0 1 0 a).filter (fun l => l.1 == x)).map Lk.slot =
+      List.range' 0 ((linkages down w F 0 1 0 a).filter (fun l => l.1 == x)).length := by
+  refine ⟨slots_nodup down w F 0 1 0 a x (by omega), ?_⟩
+  have h := slots_consecutive down w F 0 1 0 a x (by omega)
+  have h0 : (if x = 0 then 0 else 0) = 0 := by split <;> rfl
+  rw [h, h0]
+
+/-- the marker pairs of the four slots are eight different atoms (kernel evaluation over the regenerated table) -/
+theorem C01_marker_table :
+    Gen.dummyAtoms.length = 4 ∧ (Gen.dummyAtoms.flatMap (fun p => [p.1.2, p.2.2])).Nodup := by
   decide +kernel
 
 /-- The tree the assembly consumes is the written one (C03). -/
